@@ -47,7 +47,7 @@ def poly2_expr(xs, ys):
 
 
 class Prop(BaseProp):
-    coq_targets = ['ND/Proofs/C05_proofs.vo', 'ND/Proofs/C05_try.vo', 'ND/Proofs/C05_programs.vo']
+    coq_targets = ['ND/Proofs/C05_proofs.vo', 'ND/Proofs/C05_try.vo', 'ND/Proofs/C05_programs.vo', 'ND/Proofs/C05_hessian.vo']
     extra_model_targets = ['ND/Hand/Drivers.vo', 'ND/Hand/DriverFns.vo']
     n_quick, n_thorough = 260, 3000
 
